@@ -231,6 +231,10 @@ pub fn execute(scn: &Scenario, ctx: &mut Ctx) {
             None => return,
         };
         ctx.log(0x7a9, out.code(), v.as_ref().map(|x| x.0 as u64).unwrap_or(0));
+        ctx.count("oracle/tap_evaluations", 1);
+        if out.is_ok() && v.as_ref().map(|x| x.0 < delivered).unwrap_or(false) {
+            ctx.count("oracle/taps_ok_with_inflight_bytes_behind", 1);
+        }
         ctx.trace(0x7a9 + ((ki as u64) << 12), out.code() & 0xfffff, buf.len());
         let extent = structs::declared_extent(&kind, buf);
         ctx.cell("tap", ki * 4 + if out.is_ok() { if delivered > v.as_ref().map(|x| x.0).unwrap_or(0) { 1 } else { 0 } } else if out.is_incomplete() { 2 } else { 3 });
@@ -325,6 +329,7 @@ pub fn execute(scn: &Scenario, ctx: &mut Ctx) {
         let b = describe(ctx, &alt);
         if let (Some((oa, da)), Some((ob, db))) = (a, b) {
             ctx.log(0xa17, oa.code(), ob.code());
+            ctx.count("oracle/alternative_trailing_string_comparisons", 1);
             if oa.class != ob.class || oa.kind != ob.kind {
                 ctx.violate(Prop::C06, "locality/class-changed", || format!("{}: {} when followed by one {}-byte string, {} when followed by another of the same length", kind, oa.show(), trail.len(), ob.show()));
             } else if da != db {
